@@ -139,5 +139,150 @@ AGGR["targets"].append({"raw": lambda tr: (
 SPECS["Mean"] = MEAN
 
 
+# ----------------------------------------------------------------------------- multiplicity.py
+BJ_REC = Record("benjamini", "mk_benjamini", {"alpha": NUM, "m_adj_": NUM}, prefix="bj_")
+BF_REC = Record("bonferroni", "mk_bonferroni", {"alpha": NUM, "m": NUM}, prefix="bf_")
+SD_REC = Record("sidak", "mk_sidak", {"alpha": NUM, "m": NUM}, prefix="sd_")
+ADJ_T = ("funN", (NUM, NUM), tup(NUM, NUM))
+
+
+def _mult_preamble(tr):
+    from py2coq import Unsupported
+    out = _record_decl(BJ_REC, "benjamini") + _record_decl(BF_REC, "bonferroni") + _record_decl(SD_REC, "sidak")
+    # constructors: check what __init__ stores
+    def stored(cls):
+        init = tr.find_def(cls + ".__init__")
+        d = {}
+        for n in init.body:
+            if isinstance(n, _ast.Assign) and isinstance(n.targets[0], _ast.Attribute):
+                d[n.targets[0].attr] = n.value
+        return d
+    for cls, rec in (("_Bonferroni", BF_REC), ("_Sidak", SD_REC)):
+        d = stored(cls)
+        if set(d) != set(rec.fields) or any(_ast.unparse(v) != k for k, v in d.items()):
+            raise Unsupported(f"{cls}.__init__ changed: {[(k, _ast.unparse(v)) for k, v in d.items()]}")
+    d = stored("_Benjamini")
+    want = "m * sum((1 / i for i in range(1, m + 1))) if arbitrary_dependence else m"
+    if set(d) != {"alpha", "m_adj_"} or _ast.unparse(d["alpha"]) != "alpha" or _ast.unparse(d["m_adj_"]) != want:
+        raise Unsupported("_Benjamini.__init__ changed: " + str({k: _ast.unparse(v) for k, v in d.items()}))
+    out += ("(* _Benjamini.__init__: m_adj_ = m * sum(1 / i for i in range(1, m + 1)) if arbitrary_dependence else m *)\n"
+            "Definition benjamini_init (v_alpha : num) (v_m : nat) (v_arbitrary_dependence : bool) : benjamini :=\n"
+            "  mk_benjamini v_alpha (if v_arbitrary_dependence then (nofnat v_m * nharm v_m)%num else nofnat v_m).\n"
+            "Definition bonferroni_init (v_alpha : num) (v_m : nat) : bonferroni := mk_bonferroni v_alpha (nofnat v_m).\n"
+            "Definition sidak_init (v_alpha : num) (v_m : nat) : sidak := mk_sidak v_alpha (nofnat v_m).\n\n")
+    return out
+
+
+def _loop(py, coq):
+    """for i, metric_result in enumerate(sorted(metric_results, key=lambda d: +-d['pvalue'])[, start=1]): body"""
+    def emit(tr):
+        from py2coq import Unsupported, fail, coq_ty
+        f = tr.find_def(py)
+        body = [s for s in f.body if not (isinstance(s, _ast.Expr) and isinstance(s.value, _ast.Constant))]
+        loops = [s for s in body if isinstance(s, _ast.For)]
+        if len(loops) != 1 or body[-1] is not loops[0]:
+            raise Unsupported(f"{py}: expected exactly one trailing for loop")
+        loop = loops[0]
+        carried, uses_m = [], False
+        for s in body[:-1]:
+            if not (isinstance(s, _ast.Assign) and isinstance(s.targets[0], _ast.Name)):
+                fail(s, "pre-loop statement")
+            nm = s.targets[0].id
+            if _ast.unparse(s.value) == "len(metric_results)":
+                if nm != "m":
+                    fail(s, "length variable")
+                uses_m = True
+            elif isinstance(s.value, _ast.Constant) and isinstance(s.value.value, int):
+                carried.append((nm, s.value.value))
+            else:
+                fail(s, "pre-loop initialiser")
+        it = loop.iter
+        if not (isinstance(it, _ast.Call) and _ast.unparse(it.func) == "enumerate" and len(it.args) == 1):
+            fail(loop, "loop iterator")
+        start = 0
+        for k in it.keywords:
+            if k.arg == "start" and isinstance(k.value, _ast.Constant):
+                start = k.value.value
+            else:
+                fail(loop, "enumerate keyword")
+        srt = it.args[0]
+        key = {k.arg: k.value for k in srt.keywords}.get("key") if isinstance(srt, _ast.Call) else None
+        if not (isinstance(srt, _ast.Call) and _ast.unparse(srt.func) == "sorted" and _ast.unparse(srt.args[0]) == "metric_results"
+                and key is not None):
+            fail(loop, "sorted(...)")
+        ks = _ast.unparse(key)
+        if ks == "lambda d: -d['pvalue']":
+            order = "(fun a b => nleb b a)"   # ascending in -p  =  descending in p
+        elif ks == "lambda d: d['pvalue']":
+            order = "nleb"
+        else:
+            fail(loop, "sort key " + ks)
+        if not (isinstance(loop.target, _ast.Tuple) and len(loop.target.elts) == 2
+                and _ast.unparse(loop.target.elts[1]) == "metric_result"):
+            fail(loop, "loop target")
+        ivar = loop.target.elts[0].id
+        stmts = list(loop.body)
+        # pvalue = metric_result["pvalue"]
+        first = [s for s in stmts if isinstance(s, (_ast.Assign, _ast.AnnAssign))
+                 and _ast.unparse(s.value) == "metric_result['pvalue']"]
+        if len(first) != 1:
+            fail(loop, "pvalue binding")
+        stmts.remove(first[0])
+        last = stmts.pop()
+        if not (isinstance(last, _ast.Expr) and isinstance(last.value, _ast.Call)
+                and _ast.unparse(last.value.func) == "metric_result.update" and not last.value.args):
+            fail(last, "loop must end with metric_result.update(...)")
+        kws = {k.arg: k.value for k in last.value.keywords}
+        if set(kws) != {"pvalue_adj", "alpha_adj", "null_rejected"}:
+            fail(last, "update keywords")
+        nr = kws["null_rejected"]
+        if not (isinstance(nr, _ast.Call) and _ast.unparse(nr.func) == "int" and len(nr.args) == 1):
+            fail(last, "null_rejected must be int(<comparison>)")
+        env = {"adjust": ADJ_T, ivar: NUM, "pvalue": NUM}
+        if uses_m:
+            env["m"] = NUM
+        for nm, _ in carried:
+            env[nm] = NUM
+
+        def k(e):
+            c = ", ".join(tr.var(nm) for nm, _ in carried)
+            pa, pat = tr.ex(kws["pvalue_adj"], e)
+            aa, aat = tr.ex(kws["alpha_adj"], e)
+            rj, rjt = tr.ex(nr.args[0], e)
+            if (pat, aat, rjt) != (NUM, NUM, BOOL):
+                fail(last, "update value types")
+            return f"(({c}), ({pa}, {aa}, {rj}))"
+        text = tr.block(stmts, env, None, k)
+        cpat = ", ".join(tr.var(nm) for nm, _ in carried)
+        cty = " * ".join("num" for _ in carried)
+        inits = ", ".join(f"(nlit {v})" for _, v in carried)
+        mparam = "(v_m : num) " if uses_m else ""
+        marg = "(nofnat (length v_ps)) " if uses_m else ""
+        return (f"(* {py} (line {f.lineno}): loop body; carried variables ({', '.join(n for n, _ in carried)}) *)\n"
+                f"Definition {coq}_body (v_adjust : num -> num -> num * num) {mparam}(carry : {cty}) (v_{ivar} : num) (v_pvalue : num)\n"
+                f"    : ({cty}) * (num * num * bool) :=\n  let '({cpat}) := carry in\n  {text}.\n"
+                f"(* outputs (pvalue_adj, alpha_adj, null_rejected) in INPUT order; enumerate start = {start} *)\n"
+                f"Definition {coq} (v_adjust : num -> num -> num * num) (v_ps : list num) : list (num * num * bool) :=\n"
+                f"  run_sorted {order} nofnat {start} ({coq}_body v_adjust {marg}) ({inits}) (nlit 0, nlit 0, false) v_ps.\n")
+    return emit
+
+
+MULT = {
+    "source": "multiplicity.py",
+    "records": {"benjamini": BJ_REC, "bonferroni": BF_REC, "sidak": SD_REC},
+    "self_types": {"_Benjamini": ("rec", "benjamini"), "_Bonferroni": ("rec", "bonferroni"), "_Sidak": ("rec", "sidak")},
+    "ann": {"tuple[float, float]": tup(NUM, NUM)},
+    "preamble": _mult_preamble,
+    "extra_imports": ["lib.Loop"],
+    "targets": [
+        {"py": "_Benjamini.adjust", "coq": "benjamini_adjust"},
+        {"py": "_Bonferroni.adjust", "coq": "bonferroni_adjust"},
+        {"py": "_Sidak.adjust", "coq": "sidak_adjust"},
+        {"raw": _loop("_hochberg_stepup", "hochberg_stepup")},
+        {"raw": _loop("_holm_stepdown", "holm_stepdown")},
+    ],
+}
+SPECS["Multiplicity"] = MULT
+
 # instance-independent models (over lib/PyVal): (name, translator module, source file)
 PLAIN = [("Utils", "utils2coq", "utils.py")]
